@@ -2,6 +2,7 @@ package main
 
 import (
 	"fmt"
+	"regexp"
 	"go/ast"
 	"go/token"
 	"go/types"
@@ -153,7 +154,11 @@ func loadProgram(repoDir, specDir string, patterns []string) (*Program, error) {
 					case "allmaps":
 						con.Modifies = append(con.Modifies, &ModClause{src: src, allMaps: true})
 					default:
-						return nil, fmt.Errorf("%s:%d: interface contracts support only `modifies *` / `modifies allmaps` / nothing", con.File, con.Line)
+						if m := regexp.MustCompile(`^pkgheaps\((\w+)\)$`).FindStringSubmatch(src); m != nil {
+							con.Modifies = append(con.Modifies, &ModClause{src: src, pkgHeaps: m[1]})
+							continue
+						}
+						return nil, fmt.Errorf("%s:%d: interface contracts support only `modifies *` / `modifies allmaps` / `modifies pkgheaps(pkg)` / nothing", con.File, con.Line)
 					}
 				}
 				continue
@@ -207,7 +212,7 @@ func (P *Program) ghostField(owner types.Type, name string) *GhostField { return
 // ifaceContract: an assumed contract for calls through an interface, written as `extern iface.<Interface>.<Method>`
 // in the contract file of the interface's package. Only its frame (modifies) is used at call sites.
 func (P *Program) ifaceContract(t types.Type, method string) *Contract {
-	n, ok := t.(*types.Named)
+	n, ok := types.Unalias(t).(*types.Named)
 	if !ok || n.Obj().Pkg() == nil {
 		return nil
 	}
@@ -230,6 +235,10 @@ func (P *Program) resolveModifies(fn *ssa.Function, con *Contract) error {
 		}
 		if src == "allmaps" {
 			con.Modifies = append(con.Modifies, &ModClause{src: src, allMaps: true})
+			continue
+		}
+		if m := regexp.MustCompile(`^pkgheaps\((\w+)\)$`).FindStringSubmatch(src); m != nil {
+			con.Modifies = append(con.Modifies, &ModClause{src: src, pkgHeaps: m[1]})
 			continue
 		}
 		e, err := parseSpecExpr(src)
@@ -425,7 +434,7 @@ func (P *Program) isPure(name string) bool {
 }
 
 func (P *Program) isPureMethod(method string, recv types.Type) bool {
-	rs := types.TypeString(recv, nil)
+	rs := types.TypeString(types.Unalias(recv), nil)
 	switch rs {
 	case "error":
 		return method == "Error"
